@@ -795,21 +795,32 @@ type anyAns struct {
 	truncated bool
 }
 
+// lastErr remembers the most recent error text of an issued call (diagnostics in violation details).
+var lastErr string
+
+func noteErr(err error) bool {
+	if err != nil {
+		lastErr = errSig(err)
+		return true
+	}
+	return false
+}
+
 func (e *Env) issue(ctx context.Context, s *server.Server, storeID string, rq gen.Request) anyAns {
 	rq.Store = storeID
 	switch rq.Kind {
 	case "check":
 		a, err := e.SrvCheck(ctx, s, rq)
-		return anyAns{fmt.Sprint(a), err != nil, false}
+		return anyAns{fmt.Sprint(a), noteErr(err), false}
 	case "listobjects":
 		got, err := e.SrvListObjects(ctx, s, rq, false)
-		return anyAns{strings.Join(sorted(got), ","), err != nil, false}
+		return anyAns{strings.Join(sorted(got), ","), noteErr(err), false}
 	case "listusers":
 		got, err := e.SrvListUsers(ctx, s, rq)
-		return anyAns{strings.Join(sorted(got), ","), err != nil, e.Truncated}
+		return anyAns{strings.Join(sorted(got), ","), noteErr(err), e.Truncated}
 	case "expand":
 		tr, err := e.SrvExpand(ctx, s, rq)
-		return anyAns{tr, err != nil, false}
+		return anyAns{tr, noteErr(err), false}
 	}
 	return anyAns{"?", true, false}
 }
